@@ -13,9 +13,11 @@ from harness import c19_targets as TG
 
 ENC = ["asynq/mock_.py: patch, patch.object, _make_patch_async, _PatchAsync.__enter__/copy, _AsynqWrapper, "
        "_AsyncioWrapper, _maybe_wrap_new", "unittest.mock._patch (executed as shipped)"]
-TARGETS = ["module function", "instance method", "classmethod", "staticmethod", "plain attribute"]
+TARGETS = ["module function", "instance method", "classmethod", "staticmethod", "plain attribute",
+           "staticmethod reached through an instance", "classmethod reached through an instance"]
 REPL = ["default mock", "plain function", "bound method", "callable object", "new_callable", "non-callable",
-        "staticmethod/classmethod object", "new_callable producing a non-callable"]
+        "staticmethod/classmethod object", "new_callable producing a non-callable",
+        "callable that refuses new attributes (__slots__)"]
 ACT = ["with", "decorator", "start/stop", "start/stopall", "with (patch by dotted name)"]
 
 
@@ -25,6 +27,17 @@ class Helper(object):
 
     def bound(self, *a, **k):
         return ("bound", self.tag) + tuple(a) + tuple(sorted(k.items()))
+
+    def __call__(self, *a, **k):
+        return ("callable", self.tag) + tuple(a) + tuple(sorted(k.items()))
+
+
+class SlotHelper(object):
+    """a callable on which attributes such as .asynq cannot be set"""
+    __slots__ = ("tag",)
+
+    def __init__(self, tag):
+        self.tag = tag
 
     def __call__(self, *a, **k):
         return ("callable", self.tag) + tuple(a) + tuple(sorted(k.items()))
@@ -49,6 +62,10 @@ def target_ref(tk):
         return TG.Cls, "cmeth", "harness.c19_targets.Cls.cmeth", (lambda: TG.Cls.cmeth), (lambda: TG.Cls.__dict__["cmeth"])
     if tk == 3:
         return TG.Cls, "smeth", "harness.c19_targets.Cls.smeth", (lambda: TG.Cls.smeth), (lambda: TG.Cls.__dict__["smeth"])
+    if tk == 5:
+        return TG.Cls, "smeth", "harness.c19_targets.Cls.smeth", (lambda: TG.Cls(7).smeth), (lambda: TG.Cls.__dict__["smeth"])
+    if tk == 6:
+        return TG.Cls, "cmeth", "harness.c19_targets.Cls.cmeth", (lambda: TG.Cls(7).cmeth), (lambda: TG.Cls.__dict__["cmeth"])
     return TG.Cls, "linked", "harness.c19_targets.Cls.linked", (lambda: TG.Cls.linked), (lambda: TG.Cls.__dict__["linked"])
 
 
@@ -73,6 +90,9 @@ def make_repl(rk, tag, rv):
         return {"new": staticmethod(sfn)}, "plain", sfn
     if rk == 7:
         return {"new_callable": lambda: 12345}, "noncallable", None
+    if rk == 8:
+        sh = SlotHelper(tag)
+        return {"new": sh}, "callable", sh
     return {"new": 12345 + 0 * rv}, "noncallable", None
 
 
@@ -80,7 +100,7 @@ def f_patch(tk, rk, act, exc, nest, x, rv):
     t, r, a = conc(tk, len(TARGETS)), conc(rk, len(REPL)), conc(act, len(ACT))
     ex, ns = concb(exc), conc(nest, 4)
     rec.clear_fail()
-    if r == 6 and t != 3:
+    if r == 6 and t not in (3, 5):
         return True         # a staticmethod object is a replacement for a static method
     prog.reset_globals()
     logging.disable(logging.CRITICAL)
@@ -97,6 +117,13 @@ def f_patch(tk, rk, act, exc, nest, x, rv):
             return asynq.mock.patch.object(owner, attr, **kw)
 
         def inside(tag, m):
+            try:
+                return inside0(tag, m)
+            except Exception as e:
+                prog.reraise_control(e)
+                return "using the patched target raised %r" % (e,)
+
+        def inside0(tag, m):
             """exercise all four conventions; returns problem string or None"""
             if t == 4 or r in (5, 7):
                 # plain attribute / non-callable replacement is installed as is
@@ -188,6 +215,10 @@ def f_patch(tk, rk, act, exc, nest, x, rv):
                         asynq.mock.patch.stopall()
         except Boom:
             pass
+        except Exception as e:
+            prog.reraise_control(e)
+            return rec.fail("%s: activating the patch raised %r%s" % (
+                desc, e, "" if get_raw() is orig_raw else " and left the replacement installed"))
         if problem[0]:
             return rec.fail("%s: %s" % (desc, problem[0]))
         if get_raw() is not orig_raw:
